@@ -204,9 +204,15 @@ package stick
 //@ func stick.Equal
 //@   ensures spec: result == (strspec(left) == strspec(right))
 //@ func stick.Contains
-// (the result - some visited element is Equal to the needle - is an existential over the iteration and is not
-// specified: assumption of C16/C05)
+// C05/C16 ('in' / 'not in'): Iterate is expanded here with the comparison callback. Completeness of the search over
+// a slice or array: a negative answer means no element is Equal to the needle (Equal compares the string forms) -
+// so no shortcut on the needle or the container may answer without looking. (That a positive answer has a witness
+// is an existential over the iteration and is not stated.)
 //@   propagates
+//@   inlines stick.Iterate
+//@   ensures notfound: r1 == nil && !r0 && haystack != nil && (ikind(haystack) == 23 || ikind(haystack) == 17) ==> (forall j :: 0 <= j && j < rv_len(rv_ind(rv_of(haystack))) ==> !(strspec(rv_iface(rv_index(rv_ind(rv_of(haystack)), j))) == strspec(needle)))
+//@   loop stick.Iterate:1 invariant search: !res ==> (forall j :: 0 <= j && j < i ==> !(strspec(rv_iface(rv_index(r, j))) == strspec(needle)))
+//@   loop stick.Iterate:2 invariant true
 //@ func stick.Contains$1
 //@   implements functype:stick.Iteratee
 
